@@ -91,10 +91,11 @@ theorem hookP_start {s s1 : St} {r : Nat} (h : SI R RE E G U s) (hg : GotSolver 
    fun _ hm => hm⟩
 
 /-- `_get_solver` followed by a balanced L1 query whose callback is `_model_hook`: the invariant holds again -/
-theorem si_after_query {s s1 s2 : St} {r : Nat} (h : SI R RE E G U s) (hg : GotSolver s s1 r)
+theorem si_after_query {s s1 s2 : St} {r : Nat} (h : SI R RE E G U s) (hgT : GotS R s s1 r)
     (hst : ObjStep r s1 s2) (hfr : (objAt s2 r).frames = (objAt s1 r).frames) (hp : HookP RE E U s1.fe s2.fe) :
     SI R RE E G U s2 ∧ Keep U s s2 := by
   obtain ⟨hp1, hp2, hp3⟩ := hp
+  have hg := hgT.toGotSolver
   have hfe1 := hg.fe
   have e_cons : s2.fe.constraints = s.fe.constraints := (congrArg Frontend.constraints hp1).trans (by rw [hfe1]; rfl)
   have e_toadd : s2.fe.toAdd = [] := (congrArg Frontend.toAdd hp1).trans (by rw [hfe1]; rfl)
@@ -106,7 +107,7 @@ theorem si_after_query {s s1 s2 : St} {r : Nat} (h : SI R RE E G U s) (hg : GotS
   have e_fin : s2.fe.finalized = s.fe.finalized := (congrArg Frontend.finalized hp1).trans (by rw [hfe1]; rfl)
   have e_csat : s2.fe.cachedSat = s.fe.cachedSat := (congrArg Frontend.cachedSat hp1).trans (by rw [hfe1]; rfl)
   have e_models1 : s1.fe.models = s.fe.models := by rw [hfe1]
-  refine ⟨⟨⟨⟨?_, ?_, ?_, ?_⟩, ?_, ⟨?_, ?_⟩, ?_, ?_⟩, hp2, ?_⟩, ⟨?_, ?_⟩⟩
+  refine ⟨⟨⟨⟨?_, ?_, ?_⟩, ?_, ⟨?_, ?_⟩, ?_, ?_, ?_⟩, hp2, ?_⟩, ⟨?_, ?_⟩⟩
   · intro a _; rw [e_toadd]; rfl
   · intro r' hr'
     rw [e_sol] at hr'
@@ -119,7 +120,6 @@ theorem si_after_query {s s1 s2 : St} {r : Nat} (h : SI R RE E G U s) (hg : GotS
     simp only [holdsAll_nil, and_true]
     exact hg.asserted a
   · rw [hst.reuse, hg.reuse]; exact h.base.core.noReuse
-  · rw [e_track]; exact h.base.core.untracked
   · rw [e_cons]; exact h.base.equiv
   · rw [e_cons]; exact h.base.dinv.consR
   · rw [e_hash, e_wo]; exact h.base.dinv.seen
@@ -145,25 +145,34 @@ theorem si_after_query {s s1 s2 : St} {r : Nat} (h : SI R RE E G U s) (hg : GotS
         have e2 : s1.objs[i]? = s.objs[i]? := hg.others i hi hir
         rw [objAt_eq_of_getElem? (e1.trans e2)]
     · intro hf; rw [e_fin]; exact hf
+  · intro ht r' hr' z hz
+    rw [e_track] at ht
+    rw [e_sol] at hr'
+    simp only [Option.some.injEq] at hr'
+    subst hr'
+    have has : (objAt s2 r).asserted = (objAt s1 r).asserted := by simp only [Z3Obj.asserted, hfr]
+    rw [has] at hz
+    exact hgT.areg ht z hz
   · rw [SCInv, e_csat]; exact h.sc
   · intro v hv; rw [e_var]; exact hv
   · intro _ m hm; exact hp3 m (by rw [e_models1]; exact hm)
 
 /-! ### `satisfiable` -/
 
-theorem full_satisfiable_spec (hE : OracleExact E) (hR : Reg R E) {self sup : Ops} (hmh : self.modelHook = mcHook)
+theorem full_satisfiable_spec (hE : OracleExact E) (hR : Reg R E) (hZ : ZidFaithful R) {self sup : Ops} (hmh : self.modelHook = mcHook)
     (extra : List Con) : SatSpec R RE E G U extra ((fullLayer E self sup).satisfiable extra) := by
   intro s h
   show match (do let r ← getSolver; z3Satisfiable E r (extra.map ZCon.ofCon) self.modelHook : M Bool) s with
     | (.ok b, s') => _ | (.error e, s') => _
   rw [hmh]
   simp only [bind, M.bind]
-  have hgs := getSolver_spec s h.base.core
+  have hgsT := getSolverG_spec hZ s h.base.core h.base.dinv.consR h.base.areg
   rcases hg : getSolver s with ⟨res, s1⟩
-  rw [hg] at hgs
+  rw [hg] at hgsT
   cases res with
-  | error e => exact absurd hgs id
+  | error e => exact absurd hgsT id
   | ok r =>
+    have hgs := hgsT.toGotSolver
     simp only
     have hsp := z3Satisfiable_spec hE (hookOk_mc (RE := RE) hR h.base hgs) r (extra.map ZCon.ofCon) s1 (fun _ hc => hc)
     rcases hz : z3Satisfiable E r (extra.map ZCon.ofCon) mcHook s1 with ⟨res2, s2⟩
@@ -171,11 +180,11 @@ theorem full_satisfiable_spec (hE : OracleExact E) (hR : Reg R E) {self sup : Op
     cases res2 with
     | error e =>
       obtain ⟨he, hst, hfr⟩ := hsp
-      obtain ⟨h2, hk⟩ := si_after_query h hgs hst.toObjStep hfr (hst.fe (hookP_start h hgs))
+      obtain ⟨h2, hk⟩ := si_after_query h hgsT hst.toObjStep hfr (hst.fe (hookP_start h hgs))
       exact ⟨he, h2, hk⟩
     | ok b =>
       obtain ⟨hb, hst, hfr⟩ := hsp
-      obtain ⟨h2, hk⟩ := si_after_query h hgs hst.toObjStep hfr (hst.fe (hookP_start h hgs))
+      obtain ⟨h2, hk⟩ := si_after_query h hgsT hst.toObjStep hfr (hst.fe (hookP_start h hgs))
       refine ⟨?_, h2, hk⟩
       rw [hb]
       constructor
@@ -191,8 +200,8 @@ theorem feasibleT_iff_realises {s s1 : St} {r : Nat} (hb : BInv R G U s) (hg : G
   · rintro ⟨a, ha, hat⟩; exact ⟨a, (satBy_query' hb hg extra a).mp ha, hat⟩
   · rintro ⟨a, ha, hat⟩; exact ⟨a, (satBy_query' hb hg extra a).mpr ha, hat⟩
 
-theorem full_batchEval_spec (hE : OracleExact E) (hR : Reg R E) (hC : EvalComplete RE E) (hRE : ExpReg RE)
-    {self sup : Ops} (hmh : self.modelHook = mcHook) (asts : List Exp) (n : Nat) (hn : 1 ≤ n)
+theorem full_batchEval_spec (hE : OracleExact E) (hR : Reg R E) (hZ : ZidFaithful R) (hC : EvalComplete RE E)
+    (hRE : ExpReg RE) {self sup : Ops} (hmh : self.modelHook = mcHook) (asts : List Exp) (n : Nat) (hn : 1 ≤ n)
     (extra : List Con) : BatchSpec R RE E G U asts n extra ((fullLayer E self sup).batchEval asts n extra) := by
   intro s h
   show match (do
@@ -202,12 +211,13 @@ theorem full_batchEval_spec (hE : OracleExact E) (hR : Reg R E) (hC : EvalComple
     | (.ok ts, s') => _ | (.error e, s') => _
   rw [hmh]
   simp only [bind, M.bind]
-  have hgs := getSolver_spec s h.base.core
+  have hgsT := getSolverG_spec hZ s h.base.core h.base.dinv.consR h.base.areg
   rcases hg : getSolver s with ⟨res, s1⟩
-  rw [hg] at hgs
+  rw [hg] at hgsT
   cases res with
-  | error e => exact absurd hgs id
+  | error e => exact absurd hgsT id
   | ok r =>
+    have hgs := hgsT.toGotSolver
     simp only
     obtain ⟨f, hf1⟩ := hgs.frames
     have hsp := z3BatchEval_spec hE (hookOk_mc (RE := RE) hR h.base hgs) r asts n (extra.map ZCon.ofCon) s1 hgs.lt
@@ -218,11 +228,11 @@ theorem full_batchEval_spec (hE : OracleExact E) (hR : Reg R E) (hC : EvalComple
     cases res2 with
     | error err =>
       obtain ⟨he, hst, hfr⟩ := hsp
-      obtain ⟨h2, hk⟩ := si_after_query h hgs hst.toObjStep hfr (hst.fe (hookP_start h hgs))
+      obtain ⟨h2, hk⟩ := si_after_query h hgsT hst.toObjStep hfr (hst.fe (hookP_start h hgs))
       exact ⟨Or.inr he, h2, hk⟩
     | ok ts =>
       obtain ⟨hreal, hnd, hlen, hcomp, hst, hfr⟩ := hsp
-      obtain ⟨h2, hk⟩ := si_after_query h hgs hst.toObjStep hfr (hst.fe (hookP_start h hgs))
+      obtain ⟨h2, hk⟩ := si_after_query h hgsT hst.toObjStep hfr (hst.fe (hookP_start h hgs))
       by_cases hemp : ts.isEmpty = true
       · simp only [hemp, ↓reduceIte, M.throw_apply]
         have hts : ts = [] := by simpa using hemp
@@ -247,7 +257,7 @@ theorem full_batchEval_spec (hE : OracleExact E) (hR : Reg R E) (hC : EvalComple
 
 /-! ### `solution` -/
 
-theorem full_solution_spec (hE : OracleExact E) (hR : Reg R E) {self sup : Ops} (hmh : self.modelHook = mcHook)
+theorem full_solution_spec (hE : OracleExact E) (hR : Reg R E) (hZ : ZidFaithful R) {self sup : Ops} (hmh : self.modelHook = mcHook)
     (e : Exp) (v : Nat) (hv : v < 2 ^ e.bits) (extra : List Con) :
     SolSpec R RE E G U e v extra ((fullLayer E self sup).solution e v extra) := by
   intro s h
@@ -255,12 +265,13 @@ theorem full_solution_spec (hE : OracleExact E) (hR : Reg R E) {self sup : Ops} 
     | (.ok b, s') => _ | (.error e, s') => _
   rw [hmh]
   simp only [bind, M.bind, z3Solution]
-  have hgs := getSolver_spec s h.base.core
+  have hgsT := getSolverG_spec hZ s h.base.core h.base.dinv.consR h.base.areg
   rcases hg : getSolver s with ⟨res, s1⟩
-  rw [hg] at hgs
+  rw [hg] at hgsT
   cases res with
-  | error e => exact absurd hgs id
+  | error e => exact absurd hgsT id
   | ok r =>
+    have hgs := hgsT.toGotSolver
     simp only
     have hsp := z3Satisfiable_spec hE (hookOk_mc (RE := RE) hR h.base hgs) r (eqCon e (v : Int) :: extra.map ZCon.ofCon) s1
       (fun _ hc => hc)
@@ -269,11 +280,11 @@ theorem full_solution_spec (hE : OracleExact E) (hR : Reg R E) {self sup : Ops} 
     cases res2 with
     | error err =>
       obtain ⟨he, hst, hfr⟩ := hsp
-      obtain ⟨h2, hk⟩ := si_after_query h hgs hst.toObjStep hfr (hst.fe (hookP_start h hgs))
+      obtain ⟨h2, hk⟩ := si_after_query h hgsT hst.toObjStep hfr (hst.fe (hookP_start h hgs))
       exact ⟨Or.inr he, h2, hk⟩
     | ok b =>
       obtain ⟨hb, hst, hfr⟩ := hsp
-      obtain ⟨h2, hk⟩ := si_after_query h hgs hst.toObjStep hfr (hst.fe (hookP_start h hgs))
+      obtain ⟨h2, hk⟩ := si_after_query h hgsT hst.toObjStep hfr (hst.fe (hookP_start h hgs))
       refine ⟨?_, h2, hk⟩
       rw [hb]
       have hq : ∀ a, SatBy ((objAt s1 r).asserted ++ eqCon e (v : Int) :: extra.map ZCon.ofCon) a ↔
